@@ -211,7 +211,7 @@ def run_check(pid, tier, seed, replay=None):
             distinct.add("\n".join(case.block))
         for kind, idx, detail in judge(case, reals, gens, specs):
             if kind == "violation":
-                kf = P.known_match(case, idx, reals, specs, listed) if hasattr(P, "known_match") else None
+                kf = P.known_match(case, idx, reals, specs, listed, detail) if hasattr(P, "known_match") else None
                 if kf:
                     knowns.setdefault(kf["id"], {"finding": kf, "count": 0, "first": case.block})
                     knowns[kf["id"]]["count"] += 1
@@ -232,7 +232,7 @@ def run_check(pid, tier, seed, replay=None):
         for case, reals, gens, specs in res2:
             for kind, idx, detail in judge(case, reals, gens, specs):
                 if kind == "violation":
-                    kf = P.known_match(case, idx, reals, specs, listed) if hasattr(P, "known_match") else None
+                    kf = P.known_match(case, idx, reals, specs, listed, detail) if hasattr(P, "known_match") else None
                     if not kf:
                         violations.append((case, idx, detail, reals, specs))
 
